@@ -744,11 +744,11 @@ def bkg_guards(ctx, rule, lg, subs, stores, symmetric=False):
                                 (rule, g.describe(bypass)[-4:]))
 
 
-def r9_background(ctx, prog):
+def r9_background(ctx, prog, rule="C02-R9"):
     """the background is subtracted exactly once before segmentation"""
     from ..core import as_update
     from .c08 import _resolve_local
-    ctx.rule("C02-R9", "the background map is subtracted exactly once: "
+    ctx.rule(rule, "the background map is subtracted exactly once: "
              "load_globals stores the image with the background already "
              "subtracted, so the driver hands find_islands (which computes "
              "|im - bkg| / rms itself) a ZERO background together with that "
@@ -767,16 +767,16 @@ def r9_background(ctx, prog):
         if any(norm(x.value) == tgt and x.lineno > st.lineno
                for x in stores) or tgt.endswith("global_data.img"):
             subtracted = True
-    ctx.ob("C02-R9", lg, "global_data.img is stored %s the background "
+    ctx.ob(rule, lg, "global_data.img is stored %s the background "
            "subtraction (%d subtraction statement(s))" %
            ("after" if subtracted else "WITHOUT", len(subs)), True, {},
            subs[0] if subs else lg.node)
     if subtracted:
-        bkg_guards(ctx, "C02-R9", lg, subs, stores)
+        bkg_guards(ctx, rule, lg, subs, stores)
     dr = prog.func("source_finder.SourceFinder.find_sources_in_image")
     calls = [c for c in walk_no_nested(dr.node) if isinstance(c, ast.Call)
              and norm(c.func) == "find_islands"]
-    ctx.floor("C02-R9", len(calls), 1, "find_islands calls in the driver")
+    ctx.floor(rule, len(calls), 1, "find_islands calls in the driver")
     for c in calls:
         im = kwarg(c, "im") or (c.args[0] if c.args else None)
         bk = kwarg(c, "bkg") or (c.args[1] if len(c.args) > 1 else None)
@@ -797,12 +797,12 @@ def r9_background(ctx, prog):
                 "numpy.zeros"))
         is_map = "bkgimg" in norm(bkr)
         if not from_globals:
-            ctx.unknown_site("C02-R9", dr, "image argument %s of "
+            ctx.unknown_site(rule, dr, "image argument %s of "
                              "find_islands not traced to global_data.img" %
                              norm(im), node=c)
             continue
         ok = (subtracted and zero) or (not subtracted and is_map)
-        ctx.check("C02-R9", dr, "find_islands(im=%s, bkg=%s)" %
+        ctx.check(rule, dr, "find_islands(im=%s, bkg=%s)" %
                   (norm(im), norm(bk, 40)), ok,
                   "the image handed to find_islands has the background %s "
                   "and the bkg argument is %s: islands are segmented on "
